@@ -209,7 +209,7 @@ func init() {
 				return
 			}
 			c.Obs("ref_golden_selftests", 1)
-			w := map[string]int{"set": 40, "rm": 16, "save": 20, "rollback": 3, "reopen": 5, "load": 3, "delto": 6, "lfo": 3, "delfrom": 1}
+			w := map[string]int{"set": 40, "rm": 16, "save": 20, "rollback": 3, "reopen": 5, "load": 3, "delto": 6, "lfo": 3, "delfrom": 1, "redo": 3}
 			p := &v1x.GenParams{MinOps: 10, MaxOps: 45, W: w, MaxKeys: 12, InvalidPct: 3,
 				Backends: []string{"mem"}, Initials: []int64{0, 0, 0, 1, 5, 10, 63, 64, 127, 128, 1000000}, BigValues: true}
 			if c.Tier == "thorough" {
